@@ -172,6 +172,18 @@ func init() {
 	didRev[string(d1)] = "dc"
 }
 
+// mbech: the address of an account as it is SPELLED in a custom-module message field: bech32 also admits an all upper-case spelling of the
+// same address, and the accounts listed in GenesisOpts.Upper use it (queries and signatures keep the canonical spelling)
+func (c *Chain) mbech(name string) string {
+	b := c.bech(name)
+	for _, u := range c.Opts.Upper {
+		if u == name {
+			return strings.ToUpper(b)
+		}
+	}
+	return b
+}
+
 func (c *Chain) bech(name string) string {
 	if a, ok := c.Accts[name]; ok {
 		return a.Bech
@@ -216,6 +228,12 @@ func isIntactFiller(key string, d *didtypes.DIDDocumentWithSeq, n int) bool {
 func (c *Chain) acctName(bech string) string {
 	if n, ok := c.byBech[bech]; ok {
 		return n
+	}
+	// another spelling of a known address (bech32 is case-insensitive as a whole) names the same account
+	if a, err := sdk.AccAddressFromBech32(bech); err == nil {
+		if n, ok := c.byBech[a.String()]; ok {
+			return n
+		}
 	}
 	return "?" + bech
 }
@@ -471,48 +489,48 @@ func concProof(p M) []byte {
 func (c *Chain) concMsg(m M) (sdk.Msg, error) {
 	switch str(m, "type") {
 	case "aol.CreateTopic":
-		return &aoltypes.MsgCreateTopicRequest{TopicName: conc(topicDict, str(m, "topic")), Description: str(m, "desc"), OwnerAddress: c.bech(str(m, "owner"))}, nil
+		return &aoltypes.MsgCreateTopicRequest{TopicName: conc(topicDict, str(m, "topic")), Description: str(m, "desc"), OwnerAddress: c.mbech(str(m, "owner"))}, nil
 	case "aol.AddWriter":
 		return &aoltypes.MsgAddWriterRequest{TopicName: conc(topicDict, str(m, "topic")), Moniker: str(m, "mon"), Description: str(m, "desc"),
-			WriterAddress: c.bech(str(m, "writer")), OwnerAddress: c.bech(str(m, "owner"))}, nil
+			WriterAddress: c.mbech(str(m, "writer")), OwnerAddress: c.mbech(str(m, "owner"))}, nil
 	case "aol.DeleteWriter":
-		return &aoltypes.MsgDeleteWriterRequest{TopicName: conc(topicDict, str(m, "topic")), WriterAddress: c.bech(str(m, "writer")), OwnerAddress: c.bech(str(m, "owner"))}, nil
+		return &aoltypes.MsgDeleteWriterRequest{TopicName: conc(topicDict, str(m, "topic")), WriterAddress: c.mbech(str(m, "writer")), OwnerAddress: c.mbech(str(m, "owner"))}, nil
 	case "aol.AddRecord":
 		fp := str(m, "feePayer")
 		if fp == "none" {
 			fp = ""
 		}
 		if fp != "" {
-			fp = c.bech(fp)
+			fp = c.mbech(fp)
 		}
 		return &aoltypes.MsgAddRecordRequest{TopicName: conc(topicDict, str(m, "topic")), Key: []byte(str(m, "key")), Value: []byte(str(m, "val")),
-			WriterAddress: c.bech(str(m, "writer")), OwnerAddress: c.bech(str(m, "owner")), FeePayerAddress: fp}, nil
+			WriterAddress: c.mbech(str(m, "writer")), OwnerAddress: c.mbech(str(m, "owner")), FeePayerAddress: fp}, nil
 	case "did.Create":
 		return &didtypes.MsgCreateDIDRequest{Did: conc(didDict, str(m, "did")), Document: concDoc(m["doc"].(M)),
-			VerificationMethodId: vmID(conc(didDict, str(m, "vmDid")), str(m, "vm")), Signature: concProof(m["proof"].(M)), FromAddress: c.bech(str(m, "from"))}, nil
+			VerificationMethodId: vmID(conc(didDict, str(m, "vmDid")), str(m, "vm")), Signature: concProof(m["proof"].(M)), FromAddress: c.mbech(str(m, "from"))}, nil
 	case "did.Update":
 		return &didtypes.MsgUpdateDIDRequest{Did: conc(didDict, str(m, "did")), Document: concDoc(m["doc"].(M)),
-			VerificationMethodId: vmID(conc(didDict, str(m, "vmDid")), str(m, "vm")), Signature: concProof(m["proof"].(M)), FromAddress: c.bech(str(m, "from"))}, nil
+			VerificationMethodId: vmID(conc(didDict, str(m, "vmDid")), str(m, "vm")), Signature: concProof(m["proof"].(M)), FromAddress: c.mbech(str(m, "from"))}, nil
 	case "did.Deactivate":
 		return &didtypes.MsgDeactivateDIDRequest{Did: conc(didDict, str(m, "did")),
-			VerificationMethodId: vmID(conc(didDict, str(m, "vmDid")), str(m, "vm")), Signature: concProof(m["proof"].(M)), FromAddress: c.bech(str(m, "from"))}, nil
+			VerificationMethodId: vmID(conc(didDict, str(m, "vmDid")), str(m, "vm")), Signature: concProof(m["proof"].(M)), FromAddress: c.mbech(str(m, "from"))}, nil
 	case "pnft.CreateDenom":
 		return &pnfttypes.MsgCreateDenomRequest{Id: conc(denomDict, str(m, "id")), Name: str(m, "name"), Symbol: str(m, "symbol"), Description: str(m, "desc"),
-			Uri: str(m, "uri"), UriHash: str(m, "hash"), Data: str(m, "data"), Creator: c.bech(str(m, "actor"))}, nil
+			Uri: str(m, "uri"), UriHash: str(m, "hash"), Data: str(m, "data"), Creator: c.mbech(str(m, "actor"))}, nil
 	case "pnft.UpdateDenom":
 		return &pnfttypes.MsgUpdateDenomRequest{Id: conc(denomDict, str(m, "id")), Name: str(m, "name"), Symbol: str(m, "symbol"), Description: str(m, "desc"),
-			Uri: str(m, "uri"), UriHash: str(m, "hash"), Data: str(m, "data"), Updater: c.bech(str(m, "actor"))}, nil
+			Uri: str(m, "uri"), UriHash: str(m, "hash"), Data: str(m, "data"), Updater: c.mbech(str(m, "actor"))}, nil
 	case "pnft.DeleteDenom":
-		return &pnfttypes.MsgDeleteDenomRequest{Id: conc(denomDict, str(m, "id")), Remover: c.bech(str(m, "actor"))}, nil
+		return &pnfttypes.MsgDeleteDenomRequest{Id: conc(denomDict, str(m, "id")), Remover: c.mbech(str(m, "actor"))}, nil
 	case "pnft.TransferDenom":
-		return &pnfttypes.MsgTransferDenomRequest{Id: conc(denomDict, str(m, "id")), Sender: c.bech(str(m, "actor")), Receiver: c.bech(str(m, "to"))}, nil
+		return &pnfttypes.MsgTransferDenomRequest{Id: conc(denomDict, str(m, "id")), Sender: c.mbech(str(m, "actor")), Receiver: c.mbech(str(m, "to"))}, nil
 	case "pnft.Mint":
 		return &pnfttypes.MsgMintPNFTRequest{DenomId: conc(denomDict, str(m, "denom")), Id: conc(tokenDict, str(m, "id")), Name: str(m, "name"), Description: str(m, "desc"),
-			Uri: str(m, "uri"), UriHash: str(m, "hash"), Data: str(m, "data"), Creator: c.bech(str(m, "actor"))}, nil
+			Uri: str(m, "uri"), UriHash: str(m, "hash"), Data: str(m, "data"), Creator: c.mbech(str(m, "actor"))}, nil
 	case "pnft.Transfer":
-		return &pnfttypes.MsgTransferPNFTRequest{DenomId: conc(denomDict, str(m, "denom")), Id: conc(tokenDict, str(m, "id")), Sender: c.bech(str(m, "actor")), Receiver: c.bech(str(m, "to"))}, nil
+		return &pnfttypes.MsgTransferPNFTRequest{DenomId: conc(denomDict, str(m, "denom")), Id: conc(tokenDict, str(m, "id")), Sender: c.mbech(str(m, "actor")), Receiver: c.mbech(str(m, "to"))}, nil
 	case "pnft.Burn":
-		return &pnfttypes.MsgBurnPNFTRequest{DenomId: conc(denomDict, str(m, "denom")), Id: conc(tokenDict, str(m, "id")), Burner: c.bech(str(m, "actor"))}, nil
+		return &pnfttypes.MsgBurnPNFTRequest{DenomId: conc(denomDict, str(m, "denom")), Id: conc(tokenDict, str(m, "id")), Burner: c.mbech(str(m, "actor"))}, nil
 	case "bank.Send":
 		return &banktypes.MsgSend{FromAddress: c.bech(str(m, "from")), ToAddress: c.bech(str(m, "to")), Amount: c.coins(m)}, nil
 	case "bank.MultiSend":
